@@ -985,6 +985,8 @@ from mlmverif.selfcheck import B, OK  # noqa: E402
 
 _F = 'utils/iter_utils.py'
 VARIANTS = [
+    OK('returned-values-through-a-local', 'utils/iter_utils.py',
+       "      self._returned.extend(values)\n", "      ended_with = values\n      self._returned.extend(ended_with)\n"),
     OK('put-through-a-local', 'utils/iter_utils.py',
        "          self._put_nowait(value)\n", "          item = value\n          self._put_nowait(item)\n"),
     OK('stop-link-through-a-local', 'utils/iter_utils.py',
